@@ -859,10 +859,20 @@ func vC09Run(t *testing.T, names []string, class string, salt uint64) {
 			sem <- struct{}{}
 			defer func() { <-sem }()
 			os.Setenv("VERIF_CHILD_OUT", j.out)
-			ok, out := vRunChildEnv(t, "TestVerifC09Child", j.spec, 60*time.Second, "VERIF_CHILD_OUT="+j.out)
-			b, _ := os.ReadFile(j.out)
-			os.Remove(j.out)
-			fail := string(b)
+			// a scenario whose preconditions could not be established (its setup failed, a gate script could not be played:
+			// a matter of timing on a busy machine) has not taken place: it is played again, up to three times in all, and
+			// reported only if it cannot be played at all
+			var ok bool
+			var out, fail string
+			for attempt := 0; attempt < 3; attempt++ {
+				ok, out = vRunChildEnv(t, "TestVerifC09Child", j.spec, 60*time.Second, "VERIF_CHILD_OUT="+j.out)
+				b, _ := os.ReadFile(j.out)
+				os.Remove(j.out)
+				fail = string(b)
+				if !ok || (fail != "setup" && !strings.HasPrefix(fail, "gate-script-infeasible")) {
+					break
+				}
+			}
 			if !ok {
 				fail = "process-died-or-timed-out/" + vPanicLine(out)
 			}
